@@ -157,7 +157,8 @@ def _norm_len(t):
 
 
 def get(ctx, return_good, mask_given):
-    key = (id(ctx.P), return_good, mask_given)
+    _cache = ctx.P.__dict__.setdefault('_cyclevec_cache', {})     # per program: ids of dead programs are reused
+    key = (return_good, mask_given)
     if key not in _cache:
         _cache[key] = Analysis(ctx, return_good, mask_given)
     else:
